@@ -51,10 +51,15 @@ def check_C13(ctx, replay=None):
                 "distinct_nontrivial counts the classes (rf<N?, B>N?, N|B?) that occurred.",
         "configurations_on_real_code": hr.stats.get("configurations"),
         "table_rows_compared": hr.stats.get("table_rows_compared"),
+        "spec_divergences": hr.stats.get("spec_divergences", 0),
     }
-    return finish(ctx, "model_checking", cov,
-                  ["AppConfig built programmatically (file/env loading not exercised)",
-                   "replication factors above MAX_REPLICATION_FACTOR=12 are outside the domain"])
+    notes = ["AppConfig built programmatically (file/env loading not exercised)",
+             "replication factors above MAX_REPLICATION_FACTOR=12 are outside the domain"]
+    if cov["spec_divergences"]:
+        notes.append("the real placement functions differ from the specification's transcription on %d table rows (e.g. %s): TLC's "
+                     "result about the transcription does not transfer; the verdict rests on Agreement evaluated directly on the real "
+                     "functions" % (cov["spec_divergences"], json.dumps(hr.stats.get("spec_divergence_sample"))[:300]))
+    return finish(ctx, "model_checking", cov, notes)
 
 
 def _membership(ctx):
@@ -99,11 +104,16 @@ def check_C14(ctx, replay=None):
         "membership_behaviours_replayed": nplans, "membership_steps": hm.stats.get("steps_replayed"),
         "membership_ops": hm.stats.get("ops"),
         "configurations_on_real_code": hr.stats.get("configurations"),
+        "spec_divergences": hr.stats.get("spec_divergences", 0),
     }
-    return finish(ctx, "model_checking", cov,
-                  ["heartbeat timeouts are injected by back-dating node_heartbeats (as the repository's tests do)",
-                   "gossipsub transport is abstracted: any ownership response ever sent may reach any node at any time",
-                   "replication factors above MAX_REPLICATION_FACTOR=12 are outside the domain"])
+    notes = ["heartbeat timeouts are injected by back-dating node_heartbeats (as the repository's tests do)",
+             "gossipsub transport is abstracted: any ownership response ever sent may reach any node at any time",
+             "replication factors above MAX_REPLICATION_FACTOR=12 are outside the domain"]
+    if cov["spec_divergences"]:
+        notes.append("the real static placement differs from the specification's transcription on %d table rows: TLC's static result "
+                     "does not transfer; the static verdict rests on the property evaluated directly on real managers"
+                     % cov["spec_divergences"])
+    return finish(ctx, "model_checking", cov, notes)
 
 
 def check_C24(ctx, replay=None):
